@@ -60,6 +60,15 @@ func vpTransform(kind int) (Transform, bool) {
 		return JoinedTransform{&Matrix3Transform{Matrix: m}, &Translate{Offset: vpPoint("off")}}, false
 	case 10:
 		return vpNewStubTransform("T"), true
+	case 11:
+		// a scaling that is not the last step
+		s := vp.Float64("scale")
+		vp.Assume(s > 0)
+		return JoinedTransform{&Scale{Scale: s}, &Translate{Offset: vpPoint("off")}}, true
+	case 12:
+		s1, s2 := vp.Float64("scale1"), vp.Float64("scale2")
+		vp.Assume(vp.And(s1 > 0, s2 > 0))
+		return JoinedTransform{&Scale{Scale: s1}, &Translate{Offset: vpPoint("off")}, &Scale{Scale: s2}}, true
 	}
 	panic("bad kind")
 }
